@@ -873,7 +873,10 @@ def c13(case: dict, cv: CallView, out: list) -> dict:
             if any(e[0] == "classify" and e[3] == tname for e in a.ev):
                 out.append((f"C13:{tname}-classified", f"{tname} was handed to the classifier"))
             f = cv.final
-            if f["via"] != "raise" or f.get("idx") != a.n - 1:
+            same = f["via"] == "raise" and f.get("idx") == a.n - 1
+            if not same and case["cfg"].get("attempt_timeout") is not None and f["via"] == "raise" and f.get("type") == tname:
+                same = True  # asyncio.wait_for runs the attempt in an inner task; the loop re-creates CancelledError
+            if not same:
                 out.append((f"C13:{tname}-not-propagated", f"operation raised {tname} at attempt {a.n} but the call ended with {f}"))
         elif a.kind == "rexh":
             f = cv.final
